@@ -106,6 +106,14 @@ PROPS = {
         real=['base LogPrintfFunc front end (formatting, truncation, dispatch lock)', 'log::Sink filter', 'log::AsyncSink framing', 'log::AsyncFileSink (roll-over, file naming)', 'util::AsyncPipe + its back-end thread', 'real files in a per-run directory'],
         stub=['kernel thread scheduling (seeded scheduler)', 'wall clock and monotonic clock (virtual)', 'no disk faults are injected (the property does not state behaviour under I/O errors)'],
     ),
+    'C04': dict(
+        harness='c04_signals',
+        title='Signal events',
+        flavours=dict(asan=dict(quick_s=30, thorough_s=600)),
+        mode='threads',
+        real=['event::CommonLoop signal pipe, process-wide handler table, sigaction save/restore', 'SignalEventImpl', 'real sigaction()/raise()/pipes'],
+        stub=['kernel thread scheduling (seeded scheduler)', 'the moment of signal delivery (raise() on a chosen thread, one at a time)'],
+    ),
 }
 
 NOT_APPLICABLE = {
@@ -117,4 +125,4 @@ NOT_APPLICABLE = {
 
 # planned in DESIGN.md §7 but whose harness is not built yet — not claimed until it is
 PENDING = {p: 'harness not built yet (planned in DESIGN.md §7); not claimed until the check exists' for p in
-           ['C04', 'C11', 'C13', 'C17']}
+           ['C11', 'C13', 'C17']}
